@@ -43,4 +43,28 @@ theorem json_string_roundtrip (s rest : Bytes) (hs : YangText s) :
 example : YangText [97, 60, 38, 62, 34, 39, 9, 0xC3, 0xA9, 0xE2, 0x82, 0xAC, 0xF0, 0x9F, 0x98, 0x80] :=
   isYangText_sound _ (by decide)
 
+/-- non-vacuity (audit): the theorems instantiated at that string — hypotheses met, and the conclusion is not the
+    identity on bytes: the printed form differs from the string (`&lt; &amp; &gt;`, in attributes also `&quot;` and
+    `&#x9;`; JSON `\"` and `\t`), and the lexers return the string, the flag and the untouched rest -/
+def exText : Bytes := [97, 60, 38, 62, 34, 39, 9, 0xC3, 0xA9, 0xE2, 0x82, 0xAC, 0xF0, 0x9F, 0x98, 0x80]
+
+example : dumpText false exText ≠ exText ∧ dumpText true exText ≠ dumpText false exText
+    ∧ (JsonText.printString exText).tail ≠ exText ++ [34] := by decide
+
+example : XmlText.parse 60 (dumpText false exText ++ 60 :: 47 :: [97, 62]) = .ok (exText, false, 60 :: 47 :: [97, 62]) :=
+  xml_content_roundtrip exText [97, 62] (isYangText_sound _ (by decide))
+
+example : XmlText.parse 34 (dumpText true exText ++ 34 :: [47, 62]) = .ok (exText, false, 34 :: [47, 62]) :=
+  xml_attr_roundtrip exText [47, 62] (isYangText_sound _ (by decide))
+
+/-- non-vacuity (audit): the `ws_only` flag takes both values — white space only: literal in content (flag set),
+    `&#x9;&#xA;` in an attribute (flag clear) -/
+example : XmlText.parse 60 (dumpText false [32, 9, 10] ++ 60 :: 47 :: [62]) = .ok ([32, 9, 10], true, 60 :: 47 :: [62])
+    ∧ XmlText.parse 34 (dumpText true [32, 9, 10] ++ 34 :: [62]) = .ok ([32, 9, 10], false, 34 :: [62]) :=
+  ⟨xml_content_roundtrip [32, 9, 10] [62] (isYangText_sound _ (by decide)),
+   xml_attr_roundtrip [32, 9, 10] [62] (isYangText_sound _ (by decide))⟩
+
+example : JsonText.parse ((JsonText.printString exText).tail ++ [44]) = .ok (exText, [44]) :=
+  json_string_roundtrip exText [44] (isYangText_sound _ (by decide))
+
 end LyModel.Props.C01
